@@ -11,8 +11,68 @@ class RegBench:
         self.R = fw.Runner(self.O) if br.runner_ok else None
 
     def close(self):
+        try:
+            self.double_fetch_probe()
+        except Exception as e:
+            self.chk.notes.append({"double_fetch_probe": "did not run: " + repr(e)[:200]})
         if self.R:
             self.R.close()
+
+    def double_fetch_probe(self):
+        """see AuthBench.double_fetch_probe: a registration whose clientDataJSON / attestationObject read as X first (what the ceremony checks want, unsigned) and as Y later
+        (genuinely signed, for another ceremony / with other flags); X and Y are each refused when presented constantly"""
+        if getattr(self, "_df_done", False):
+            return
+        self._df_done = True
+        import webauthn, cbor2
+        from webauthn.helpers.structs import RegistrationCredential, AuthenticatorAttestationResponse
+        from harness import regsim
+        chk = self.chk
+        for fmt in ("packed-self", "packed"):
+            variants = []
+            # Y signed for another challenge; X = the expected client data next to Y's statement
+            s1 = regsim.RScn(fmt, "ES256-P256")
+            pd1, r1 = regsim.build(s1)
+            s2 = regsim.RScn(fmt, "ES256-P256"); s2.challenge = b"another-challenge-of-another-ceremony"
+            pd2, r2 = regsim.build(s2)
+            P = policy_of(pd1)
+            variants.append(("clientDataJSON", {"client_data_json": [r1.cdj, r2.cdj]}, dict(client_data_json=r2.cdj, attestation_object=r2.att_obj), P, r2))
+            # Y signed with UV clear while the RP requires it; X = the same attestation object with the UV bit set (unsigned)
+            s3 = regsim.RScn(fmt, "ES256-P256"); s3.flags = 0x41; s3.require_uv = True
+            pd3, r3 = regsim.build(s3)
+            ao = cbor2.loads(r3.att_obj)
+            adb = bytearray(ao["authData"]); adb[32] |= 0x04
+            ao_x = cbor2.dumps(dict(ao, authData=bytes(adb)))
+            variants.append(("attestationObject (UV flag)", {"attestation_object": [ao_x, r3.att_obj]}, dict(client_data_json=r3.cdj, attestation_object=r3.att_obj), policy_of(pd3), r3))
+            # Y attests another RP; X = authenticator data with the expected RP ID hash
+            s4 = regsim.RScn(fmt, "ES256-P256"); s4.sign_rp_id = "other-rp.example"
+            pd4, r4 = regsim.build(s4)
+            ao4 = cbor2.loads(r4.att_obj)
+            import hashlib
+            ao4x = cbor2.dumps(dict(ao4, authData=hashlib.sha256(s4.rp_id.encode()).digest() + ao4["authData"][32:]))
+            variants.append(("attestationObject (RP ID hash)", {"attestation_object": [ao4x, r4.att_obj]}, dict(client_data_json=r4.cdj, attestation_object=r4.att_obj), policy_of(pd4), r4))
+            for what, seqs, y_fields, P, r in variants:
+                y_fields = dict(y_fields, transports=None)
+                cred_fields = dict(id=r.id_text, raw_id=r.cred_id, type="public-key", authenticator_attachment=None)
+                x_fields = dict(y_fields)
+                for k_, sq in seqs.items():
+                    x_fields[k_] = sq[0]
+                const = []
+                for fields in (x_fields, y_fields):
+                    rec = RegistrationCredential(response=AuthenticatorAttestationResponse(**fields), **cred_fields)
+                    with impl.substituted(P.substitute, P.now):
+                        const.append(impl.outcome(lambda: webauthn.verify_registration_response(credential=rec, **P.kwargs()), impl.pr_verified_reg))
+                for later in (1, 2):
+                    seqs2 = {k_: [sq[0]] * later + [sq[1]] for k_, sq in seqs.items()}
+                    rec = impl.sequenced_record(RegistrationCredential, AuthenticatorAttestationResponse, cred_fields, y_fields, seqs2)
+                    with impl.substituted(P.substitute, P.now):
+                        o = impl.outcome(lambda: webauthn.verify_registration_response(credential=rec, **P.kwargs()), impl.pr_verified_reg)
+                    chk.evals += 3
+                    if o.startswith("OK") and not const[0].startswith("OK") and not const[1].startswith("OK"):
+                        chk.violation(f"a registration whose {what} reads as one value on read {later} and as another afterwards is accepted although it is refused under EITHER value: what the checks saw is not what the statement covers (a field fetched twice within one call)",
+                                      f"double-fetch reg {what} {fmt}", {"entry": "verify_registration_response", "policy": P.describe(), "fmt": fmt, "field": what, "first_reads": {k_: v[0].hex() for k_, v in seqs.items()},
+                                                                         "later_reads": {k_: v[1].hex() for k_, v in seqs.items()}, "outcome": o[:300], "outcome_under_first_value": const[0][:200], "outcome_under_later_value": const[1][:200]})
+                        break
 
     def run_case(self, pol, reg, form, expect, label, scn=None, known=None):
         """expect: 'accept' | 'reject' | None; pol: impl.RegPolicy"""
